@@ -426,6 +426,11 @@ class Folder:
         elif isinstance(t, ast.Subscript) and isinstance(t.value, ast.Name) and t.value.id in env \
                 and isinstance(env[t.value.id], (dict, list)) and self.allow_loops:
             env[t.value.id][self._eval(t.slice, env, self._cur_mod, None)] = v
+        elif isinstance(t, ast.Subscript) and self.allow_loops and not isinstance(t.value, ast.Name):
+            base = self._eval(t.value, env, self._cur_mod, None)
+            if not isinstance(base, (dict, list)):
+                raise Unsupported('item assignment on ' + type(base).__name__)
+            base[self._eval(t.slice, env, self._cur_mod, None)] = v
         else:
             raise Unsupported('assignment to non-local in folded function')
 
